@@ -8,182 +8,213 @@
 (*                                                                         *)
 (* Several runs are concatenated; a "Reset" line starts a new repository.  *)
 (* "Init*" lines describe a pre-existing storage (harness-made or cloned   *)
-(* prefix state), "Damage*" lines harness-made damage; both are            *)
-(* environment steps and exempt from the ordering rules.                   *)
+(* prefix state), "Damage*"/"Drop*" lines harness-made damage; both are    *)
+(* environment steps, exempt from the ordering rules, and what they break  *)
+(* is remembered as a baseline: restic must not ADD damage.                *)
 (***************************************************************************)
-EXTENDS Repo, Json, Sequences, SequencesExt
+EXTENDS Repo, Json, Sequences, SequencesExt, FiniteSetsExt
 
 Trace == ndJsonDeserialize("trace.ndjson")
 
-VARIABLES l,        \* next line to consume
-          cmd,      \* proc |-> name of the command it is running ("" = none)
-          removed,  \* proc |-> snapshots it removed during the current command
-          saved,    \* proc |-> snapshots it saved during the current command
-          muts,     \* proc |-> number of effective mutating operations (not lock files) in the command
-          lockops,  \* proc |-> number of lock-file operations in the command
-          base,     \* set of blobs already lost / index entries already unsound by environment damage
-          ev        \* the line consumed last (for per-event invariants)
+VARIABLES l,    \* next line to consume
+          aux,  \* bookkeeping record, see AuxInit
+          ev    \* the line consumed last (for per-event invariants)
 
-tvars == <<storage, l, cmd, removed, saved, muts, lockops, base, ev>>
+tvars == <<storage, l, aux, ev>>
 
 Rng(s) == {s[k] : k \in DOMAIN s}
 Get(f, k, d) == IF k \in DOMAIN f THEN f[k] ELSE d
 Put(f, k, v) == [x \in DOMAIN f \cup {k} |-> IF x = k THEN v ELSE f[x]]
 
+AuxInit == [cmd     |-> EmptyFn,   \* proc |-> name of the command it is running ("" = none)
+            removed |-> EmptyFn,   \* proc |-> snapshots it removed during the current command
+            saved   |-> EmptyFn,   \* proc |-> snapshots it saved during the current command
+            muts    |-> EmptyFn,   \* proc |-> effective mutating operations (not lock files) in the command
+            lockops |-> EmptyFn,   \* proc |-> lock-file operations in the command
+            base    |-> {},        \* index entries made unsound by the environment
+            baseB   |-> {},        \* blobs made unavailable by the environment
+            pre     |-> EmptyFn,   \* proc |-> [packs, idx] when its current command began
+            plen    |-> EmptyFn,   \* pack |-> (blob |-> stored length)
+            psize   |-> EmptyFn]   \* pack |-> file size
+
 E == Trace[l]
 Is(names) == l <= Len(Trace) /\ E.ev \in names
 Consume == l' = l + 1 /\ ev' = E
-
 NoEv == [ev |-> "none"]
 
 EnvEvents == {"Reset", "InitPack", "InitIndex", "InitSnap", "InitKey", "InitConfig", "InitLock",
-              "DamagePack", "DamageIndex", "DamageSnap", "DropPack", "DropIndex", "DropSnap", "DropKey", "DropConfig"}
+              "DamagePack", "DamageIndex", "DamageSnap", "DamageKey", "DamageConfig", "DamageLock",
+              "DropPack", "DropIndex", "DropSnap", "DropKey", "DropConfig"}
 
 \* blobs of a pack event that decrypt and hash to their id
-GoodBlobs(e) == {e.blobs[k] : k \in {j \in DOMAIN e.blobs : e.blob_ok[j]}}
+GoodIdx(e)   == {j \in DOMAIN e.blobs : e.blob_ok[j]}
+GoodBlobs(e) == {e.blobs[k] : k \in GoodIdx(e)}
+LenFn(e)     == [b \in GoodBlobs(e) |-> e.lens[CHOOSE k \in GoodIdx(e) : e.blobs[k] = b]]
 EntrySet(e)  == {<<x[1], x[2]>> : x \in Rng(e.entries)}
 
-Touch(p)  == muts' = Put(muts, p, Get(muts, p, 0) + 1)
-KeepCmd   == UNCHANGED <<cmd, removed, saved, base, lockops>>
+Touch(a, p) == [a EXCEPT !.muts = Put(@, p, Get(@, p, 0) + 1)]
+
+\* what the environment has broken after an environment step (evaluated on the new storage)
+Unsound(pk, ix)  == {e \in EntriesOf(ix) : ~SoundEntry(e, pk)}
+Unavail(pk, ix, sn, kd) == {b \in NeededOf(sn, kd) : ~IndexedIn(b, ix, pk)}
+Rebase(a) == [a EXCEPT !.base  = @ \cup Unsound(packs', idx'),
+                       !.baseB = @ \cup Unavail(packs', idx', snaps', kids')]
 
 TReset ==
   /\ Is({"Reset"}) /\ Consume
   /\ packs' = EmptyFn /\ idx' = EmptyFn /\ snaps' = EmptyFn /\ kids' = EmptyFn
   /\ keys' = {} /\ cfg' = 0
-  /\ cmd' = EmptyFn /\ removed' = EmptyFn /\ saved' = EmptyFn /\ muts' = EmptyFn /\ lockops' = EmptyFn /\ base' = {}
+  /\ aux' = AuxInit
 
 TTree ==
   /\ Is({"Tree"}) /\ Consume
   /\ LearnTree(E.b, Rng(E.kids))
-  /\ KeepCmd /\ UNCHANGED muts
+  /\ UNCHANGED aux
 
 TSavePack ==
   /\ Is({"SavePack", "InitPack"}) /\ Consume
   /\ SavePack(E.id, GoodBlobs(E))
-  /\ KeepCmd /\ Touch(E.proc)
+  /\ LET a == [aux EXCEPT !.plen = Put(@, E.id, LenFn(E)), !.psize = Put(@, E.id, E.size)]
+     IN aux' = IF E.ev = "InitPack" THEN Rebase(a) ELSE Touch(a, E.proc)
 
 TSaveIndex ==
   /\ Is({"SaveIndex", "InitIndex"}) /\ Consume
   /\ SaveIndex(E.id, EntrySet(E))
-  /\ KeepCmd /\ Touch(E.proc)
+  /\ aux' = IF E.ev = "InitIndex" THEN Rebase(aux) ELSE Touch(aux, E.proc)
 
 TSaveSnap ==
   /\ Is({"SaveSnap", "InitSnap"}) /\ Consume
   /\ SaveSnap(E.id, E.tree, E.orig)
-  /\ saved' = Put(saved, E.proc, Get(saved, E.proc, {}) \cup {E.id})
-  /\ UNCHANGED <<cmd, removed, base, lockops>> /\ Touch(E.proc)
+  /\ LET a == [aux EXCEPT !.saved = Put(@, E.proc, Get(@, E.proc, {}) \cup {E.id})]
+     IN aux' = IF E.ev = "InitSnap" THEN Rebase(a) ELSE Touch(a, E.proc)
 
 TRemoveSnap ==
   /\ Is({"RemoveSnap", "DropSnap"}) /\ Consume
   /\ IF E.id \in DOMAIN snaps THEN RemoveSnap(E.id) ELSE UNCHANGED storage
-  /\ removed' = Put(removed, E.proc, Get(removed, E.proc, {}) \cup {E.id})
-  /\ UNCHANGED <<cmd, saved, base, lockops>> /\ Touch(E.proc)
+  /\ aux' = Touch([aux EXCEPT !.removed = Put(@, E.proc, Get(@, E.proc, {}) \cup {E.id})], E.proc)
 
 TRemoveIndex ==
   /\ Is({"RemoveIndex", "DropIndex"}) /\ Consume
   /\ IF E.id \in DOMAIN idx THEN RemoveIndex(E.id) ELSE UNCHANGED storage
-  /\ KeepCmd /\ Touch(E.proc)
+  /\ aux' = IF E.ev = "DropIndex" THEN Rebase(aux) ELSE Touch(aux, E.proc)
 
 TRemovePack ==
   /\ Is({"RemovePack", "DropPack"}) /\ Consume
   /\ IF E.id \in DOMAIN packs THEN RemovePack(E.id) ELSE UNCHANGED storage
-  /\ KeepCmd /\ Touch(E.proc)
+  /\ aux' = IF E.ev = "DropPack" THEN Rebase(aux) ELSE Touch(aux, E.proc)
 
 TSaveKey ==
   /\ Is({"SaveKey", "InitKey"}) /\ Consume
   /\ AddKey(E.id)
-  /\ KeepCmd /\ Touch(E.proc)
+  /\ aux' = IF E.ev = "InitKey" THEN aux ELSE Touch(aux, E.proc)
 
 TRemoveKey ==
   /\ Is({"RemoveKey", "DropKey"}) /\ Consume
   /\ RemoveKey(E.id)
-  /\ KeepCmd /\ Touch(E.proc)
+  /\ aux' = Touch(aux, E.proc)
 
 TSaveConfig ==
   /\ Is({"SaveConfig", "InitConfig"}) /\ Consume
   /\ SaveConfig(E.version)
-  /\ KeepCmd /\ Touch(E.proc)
+  /\ aux' = IF E.ev = "InitConfig" THEN aux ELSE Touch(aux, E.proc)
 
 TRemoveConfig ==
   /\ Is({"RemoveConfig", "DropConfig"}) /\ Consume
   /\ RemoveConfig
-  /\ KeepCmd /\ Touch(E.proc)
+  /\ aux' = Touch(aux, E.proc)
 
-\* lock files are outside the storage model (Lock.tla); they count as mutations
+\* lock files are outside the storage model (Lock.tla); they are counted separately
 TLockOp ==
-  /\ Is({"SaveLock", "RemoveLock", "InitLock"}) /\ Consume
-  /\ UNCHANGED storage /\ UNCHANGED <<cmd, removed, saved, base, muts>>
-  /\ IF E.ev = "InitLock" THEN UNCHANGED lockops
-     ELSE lockops' = Put(lockops, E.proc, Get(lockops, E.proc, 0) + 1)
+  /\ Is({"SaveLock", "RemoveLock", "InitLock", "DamageLock"}) /\ Consume
+  /\ UNCHANGED storage
+  /\ aux' = IF E.ev \in {"InitLock", "DamageLock"} THEN aux
+            ELSE [aux EXCEPT !.lockops = Put(@, E.proc, Get(@, E.proc, 0) + 1)]
 
 \* reads, failed operations and free-form marks do not change the storage
 TSilent ==
-  /\ Is({"Load", "List", "Stat", "Failed", "Mark", "Report"}) /\ Consume
-  /\ UNCHANGED storage /\ KeepCmd /\ UNCHANGED muts
+  /\ Is({"Load", "List", "Stat", "Failed", "Mark", "Report", "DamageKey", "DamageConfig"}) /\ Consume
+  /\ UNCHANGED storage /\ UNCHANGED aux
 
-\* harness-made damage: the blobs a pack loses / entries that become unsound
-\* are recorded in `base`, and invariants are evaluated relative to it
+\* harness-made damage: a pack keeps its id but loses blobs; an index / snapshot file is replaced
 TDamagePack ==
   /\ Is({"DamagePack"}) /\ Consume
   /\ packs' = Put(packs, E.id, GoodBlobs(E))
   /\ UNCHANGED <<idx, snaps, kids, keys, cfg>>
-  /\ UNCHANGED <<cmd, removed, saved, muts, lockops, base>>
+  /\ aux' = Rebase([aux EXCEPT !.plen = Put(@, E.id, LenFn(E)), !.psize = Put(@, E.id, E.size)])
+
+TDamageIndex ==
+  /\ Is({"DamageIndex"}) /\ Consume
+  /\ idx' = Put(idx, E.id, EntrySet(E))
+  /\ UNCHANGED <<packs, snaps, kids, keys, cfg>>
+  /\ aux' = Rebase(aux)
+
+TDamageSnap ==
+  /\ Is({"DamageSnap"}) /\ Consume
+  /\ snaps' = IF E.readable THEN Put(snaps, E.id, [tree |-> E.tree, orig |-> E.orig]) ELSE Drop(snaps, E.id)
+  /\ UNCHANGED <<packs, idx, kids, keys, cfg>>
+  /\ aux' = Rebase(aux)
 
 TCmdBegin ==
   /\ Is({"Cmd"}) /\ E.phase = "begin" /\ Consume
-  /\ cmd' = Put(cmd, E.proc, E.cmd)
-  /\ removed' = Put(removed, E.proc, {})
-  /\ saved' = Put(saved, E.proc, {})
-  /\ muts' = Put(muts, E.proc, 0) /\ lockops' = Put(lockops, E.proc, 0)
-  /\ UNCHANGED storage /\ UNCHANGED base
+  /\ aux' = [aux EXCEPT !.cmd = Put(@, E.proc, E.cmd), !.removed = Put(@, E.proc, {}),
+                        !.saved = Put(@, E.proc, {}), !.muts = Put(@, E.proc, 0),
+                        !.lockops = Put(@, E.proc, 0),
+                        !.pre = Put(@, E.proc, [packs |-> packs, idx |-> idx])]
+  /\ UNCHANGED storage
 
 TCmdEnd ==
   /\ Is({"Cmd"}) /\ E.phase = "end" /\ Consume
-  /\ cmd' = Put(cmd, E.proc, "")
-  /\ UNCHANGED storage /\ UNCHANGED <<removed, saved, muts, lockops, base>>
+  /\ aux' = [aux EXCEPT !.cmd = Put(@, E.proc, "")]
+  /\ UNCHANGED storage
 
 TNext ==
   \/ TReset \/ TTree \/ TSavePack \/ TSaveIndex \/ TSaveSnap
   \/ TRemoveSnap \/ TRemoveIndex \/ TRemovePack
   \/ TSaveKey \/ TRemoveKey \/ TSaveConfig \/ TRemoveConfig
-  \/ TLockOp \/ TSilent \/ TDamagePack \/ TCmdBegin \/ TCmdEnd
+  \/ TLockOp \/ TSilent \/ TDamagePack \/ TDamageIndex \/ TDamageSnap \/ TCmdBegin \/ TCmdEnd
 
-TInit ==
-  /\ StorageInit /\ l = 1
-  /\ cmd = EmptyFn /\ removed = EmptyFn /\ saved = EmptyFn /\ muts = EmptyFn /\ lockops = EmptyFn
-  /\ base = {} /\ ev = NoEv
+TInit == StorageInit /\ l = 1 /\ aux = AuxInit /\ ev = NoEv
 
 TraceSpec == TInit /\ [][TNext]_tvars
 
 \* ---------------------------------------------------------- acceptance
 TraceAccepted == TLCGet("stats").diameter >= Len(Trace) + 1
 
+\* ------------------------------- invariants relative to the damage baseline
+\* (on an undamaged history base = baseB = {} and these are Repo's invariants)
+T_SnapshotData    == \A b \in Needed : Stored(b) \/ b \in aux.baseB
+T_SnapshotIndexed == \A b \in Needed : Indexed(b) \/ b \in aux.baseB
+T_IndexSound      == \A e \in Entries : SoundEntry(e, packs) \/ e \in aux.base
+
 \* ------------------------------------- ordering rules on recorded steps
 Env == l <= Len(Trace) /\ E.ev \in EnvEvents
 R_PackBeforeIndex           == [][Env \/ PackBeforeIndex]_storage
-R_IndexBeforeSnapshot       == [][Env \/ IndexBeforeSnapshot]_storage
+R_IndexBeforeSnapshot       == [][Env \/ \A s \in DOMAIN snaps' \ DOMAIN snaps :
+                                   \A b \in ReachK(kids', snaps'[s].tree) : IndexedIn(b, idx, packs) \/ b \in aux.baseB]_storage
 R_IndexGoneBeforePackDelete == [][Env \/ IndexGoneBeforePackDelete]_storage
-R_IndexDeleteKeepsNeeded    == [][Env \/ IndexDeleteKeepsNeeded]_storage
+R_IndexDeleteKeepsNeeded    == [][Env \/ \A i \in DOMAIN idx \ DOMAIN idx' :
+                                   \A b \in Needed : IndexedIn(b, Drop(idx, i), packs) \/ b \in aux.baseB]_storage
 R_LastKeyKept               == [][Env \/ LastKeyKept]_storage
 R_ConfigWriteOnce           == [][Env \/ ConfigWriteOnce]_storage
 
+CmdOf(p) == Get(aux.cmd, p, "")
+
 \* C26: tag / rewrite / repair snapshots never lose the snapshot they replace:
-\* when such a command removes snapshot s, a snapshot with the same original
-\* (or s itself as original) exists afterwards.
+\* when such a command removes snapshot s, a snapshot whose original is s (or
+\* the first id of s's lineage) exists afterwards.
 RewriteCmds == {"tag", "rewrite", "repair-snapshots"}
 SnapshotNotLost ==
   \A s \in DOMAIN snaps \ DOMAIN snaps' :
-     (l <= Len(Trace) /\ Get(cmd, E.proc, "") \in RewriteCmds)
+     (l <= Len(Trace) /\ CmdOf(E.proc) \in RewriteCmds)
         => \E s2 \in DOMAIN snaps' : snaps'[s2].orig \in {s, OrigOf(snaps, s)}
 R_SnapshotNotLost == [][SnapshotNotLost]_storage
 
-\* C26: a snapshot saved by such a command keeps the first snapshot's id as
-\* its original whenever it replaces an existing snapshot of that lineage
+\* C26: original / tree relations of a snapshot saved by such a command
 OriginalKept ==
   \A s \in DOMAIN snaps' \ DOMAIN snaps :
-     (l <= Len(Trace) /\ Get(cmd, E.proc, "") \in RewriteCmds)
+     (l <= Len(Trace) /\ CmdOf(E.proc) \in RewriteCmds)
         => /\ snaps'[s].orig # NoSnap
-           /\ IF cmd[E.proc] = "tag"
+           /\ IF CmdOf(E.proc) = "tag"
               \* tag: first id of the lineage is kept, tree untouched
               THEN \E o \in DOMAIN snaps : /\ OrigOf(snaps, o) = snaps'[s].orig
                                            /\ snaps[o].tree = snaps'[s].tree
@@ -207,26 +238,62 @@ PackUnmixed == ev.ev = "SavePack" => ~ev.mixed
 \* files written by restic are readable by restic's own decoder
 Readable   == (ev.ev \in SaveEvents /\ "readable" \in DOMAIN ev) => ev.readable
 
+IsEnd == ev.ev = "Cmd" /\ ev.phase = "end"
+
 \* C39: a command announced as read-only performed no mutating operation
 ReadOnlyRespected ==
-  (ev.ev = "Cmd" /\ ev.phase = "end" /\ "readonly" \in DOMAIN ev /\ ev.readonly)
-     => Get(muts, ev.proc, 0) = 0
+  (IsEnd /\ "readonly" \in DOMAIN ev /\ ev.readonly) => Get(aux.muts, ev.proc, 0) = 0
 \* C39: a command run with --no-lock did not even create a lock file
 NoLockRespected ==
-  (ev.ev = "Cmd" /\ ev.phase = "end" /\ "nolock" \in DOMAIN ev /\ ev.nolock)
-     => Get(lockops, ev.proc, 0) = 0
+  (IsEnd /\ "nolock" \in DOMAIN ev /\ ev.nolock) => Get(aux.lockops, ev.proc, 0) = 0
 
 \* C23: forget removed exactly the snapshots it reported
 ForgetMatchesReport ==
-  (ev.ev = "Cmd" /\ ev.phase = "end" /\ "reported" \in DOMAIN ev)
-     => Get(removed, ev.proc, {}) = Rng(ev.reported)
+  (IsEnd /\ "reported" \in DOMAIN ev) => Get(aux.removed, ev.proc, {}) = Rng(ev.reported)
 
 \* C10: after a full prune (no tolerance, no repack limit) there is no waste
 NoWaste ==
-  (ev.ev = "Cmd" /\ ev.phase = "end" /\ "fullprune" \in DOMAIN ev /\ ev.fullprune) =>
+  (IsEnd /\ "fullprune" \in DOMAIN ev /\ ev.fullprune) =>
      /\ \A e \in Entries : e[1] \in Needed                        \* no unreachable blob indexed
      /\ \A e1, e2 \in Entries : e1[1] = e2[1] => e1 = e2           \* no blob twice
      /\ \A p \in DOMAIN packs : \E e \in Entries : e[2] = p        \* no pack without entry
      /\ IndexSound                                                 \* no entry for a missing pack
+
+\* C10: the statistics prune reports agree with the repository before and after.
+\* Only relations that follow from the statement are asserted; which copy of a
+\* duplicated blob counts as "used" is prune's choice, so sizes of used and
+\* duplicate blobs are only constrained in sum.
+EntryLen(e) == IF e[2] \in DOMAIN aux.plen /\ e[1] \in DOMAIN aux.plen[e[2]] THEN aux.plen[e[2]][e[1]] ELSE 0
+SumLen(es)  == MapThenSumSet(EntryLen, es)
+PackSize(p) == Get(aux.psize, p, 0)
+PruneStatsOK ==
+  (IsEnd /\ "stats" \in DOMAIN ev) =>
+     LET st      == ev.stats
+         P       == aux.pre[ev.proc]
+         preE    == EntriesOf(P.idx)
+         usedE   == {e \in preE : e[1] \in Needed}
+         unusedE == preE \ usedE
+         usedB   == BlobsOf(usedE)
+         unref   == DOMAIN P.packs \ PacksOf(preE)
+         gone    == DOMAIN P.packs \ DOMAIN packs
+     IN /\ st.blobs_total     = Cardinality(preE)
+        /\ st.blobs_used      = Cardinality(usedB)
+        /\ st.blobs_duplicate = Cardinality(usedE) - Cardinality(usedB)
+        /\ st.blobs_unused    = Cardinality(unusedE)
+        /\ st.size_used + st.size_duplicate = SumLen(usedE)
+        /\ st.size_unused     = SumLen(unusedE)
+        /\ st.size_unref      = MapThenSumSet(PackSize, unref)
+        /\ st.size_total      = SumLen(preE) + MapThenSumSet(PackSize, unref)
+        /\ st.packs_unref     = Cardinality(unref)
+        /\ st.packs_total     = Cardinality(PacksOf(preE) \cup DOMAIN P.packs)
+        /\ (PacksOf(preE) \subseteq DOMAIN P.packs) =>
+              st.packs_keep + st.packs_repack + st.packs_remove = Cardinality(PacksOf(preE))
+        \* what the run actually did (not a dry run, run completed)
+        /\ ev.executed =>
+             /\ st.blobs_remaining = Cardinality(Entries)
+             /\ (PacksOf(preE) \subseteq DOMAIN P.packs) =>
+                   st.packs_remove_total + st.packs_repack = Cardinality(gone)
+             /\ st.packs_keep = Cardinality(PacksOf(preE) \cap DOMAIN P.packs \cap DOMAIN packs)
+             /\ (ev.samecompression => st.size_remaining = SumLen(Entries))
 
 =============================================================================
